@@ -20,6 +20,13 @@ for p in sorted(glob.glob(os.path.join(ROOT, 'seeded', '*', 'meta.json'))):
     m = json.load(open(p))
     caught = ', '.join('%s: %s' % (k, 'VIOLATION' if v['caught'] else 'missed')
                        for k, v in (m.get('checks') or {}).items())
+    if m.get('out_of_scope'):
+        caught += ' — not a break of the statement as read here (B.20)'
+    if m.get('superseded_by_repository_fix'):
+        sup = m['superseded_by_repository_fix']
+        caught += ' — superseded by repository fix %s (evaluated on its ' \
+            'parent)' % (sup.get('commit', '') if isinstance(sup, dict)
+                         else '')
     print('| `%s` | %s | %s | %s |' % (m['id'], m['breaks_property'],
                                        m.get('confirmed'), caught))
 res = os.path.join(ROOT, 'seeded', 'selftest_results.json')
